@@ -227,6 +227,23 @@ C19_RESTART = '''
 mod verif_battery_c19_restart {
     use super::*;
     #[test]
+    fn c19_batch_writes_keep_the_size_bound() {
+        let dir = std::env::temp_dir().join(format!("verif_c19_many_{}", std::process::id()));
+        let _ = std::fs::remove_dir_all(&dir);
+        let logger = RollingLogger::create_new(dir.clone(), String::from("verif.many"), 100, 5);
+        let batch = || vec!["y".repeat(59)];          // one write of 60 bytes
+        for step in 0..12 {
+            logger.write_many(batch()).unwrap();
+            std::thread::sleep(std::time::Duration::from_millis(2));
+            for e in std::fs::read_dir(&dir).unwrap().flatten() {
+                let len = e.metadata().unwrap().len();
+                assert!(len < 100 + 60 + 1, "step {}: {:?} is {} bytes with a limit of 100 and writes of 60 bytes", step, e.path(), len);
+            }
+            assert!(std::fs::read_dir(&dir).unwrap().count() <= 5);
+        }
+        let _ = std::fs::remove_dir_all(&dir);
+    }
+    #[test]
     fn c19_log_size_limit_holds_across_restarts() {
         let dir = std::env::temp_dir().join(format!("verif_c19_restart_{}", std::process::id()));
         let _ = std::fs::remove_dir_all(&dir);
